@@ -34,7 +34,13 @@ RULE = ('(a) datasets of all five convention classes (holes = cells without geom
         'rings that are not valid polygons (bow-tie, spike, pinch, zero area), which Convention.polygons drops and '
         'which must come out as cells without triangles; (c) EVERY simple polygon with 3..8 vertices on the 3x3 '
         'lattice (thorough: 3..9, and 3..6 on the 4x3 lattice); (d) rings with a repeated vertex (valid for shapely, '
-        'outside the property: model and code compared, oracle not applied). Model input is the generator\'s vertex '
+        'outside the property: model and code compared, oracle not applied); (e) call histories on ONE dataset '
+        'object: call, the caller edits the arrays it was handed IN PLACE (17 edit classes: shift / scale / wrap / swap / '
+        'sort / fill / roll the vertices, renumber / roll / fill the triangles, reverse / shift / fill / roll the cell '
+        'indexes, or nothing), call again, up to 5 calls — on two of three convention datasets, every fourth packed '
+        'mesh and 15 (thorough 200) small meshes; an implementation that hands out read-only arrays cannot be edited and '
+        'nothing is demanded of it; every later call goes through the same oracle and is compared with the model (a '
+        'function of the cells alone). Model input is the generator\'s vertex '
         'list, never read back from emsarray; a dataset whose emsarray polygons differ from the ground truth is '
         'skipped and counted. Non-trivial = a cell that is concave, has a collinear vertex, has >= 5 sides, or an '
         'invalid ring; distinct = distinct vertex sequence up to translation.')
@@ -213,6 +219,140 @@ def oracle(cells, res) -> list:
 
 
 # ---------------------------------------------------------------------------
+# call histories on ONE dataset object.  The property speaks about the triangles reported by
+# a call, whichever call it is: the answer of the n-th call on a dataset must not depend on
+# what the caller did in the meantime with the arrays an earlier call handed to it (they are
+# the caller's arrays: shifting / wrapping / reprojecting the vertices in place, renumbering
+# or reordering triangles, sorting the cell indexes are ordinary post-processing).
+# A history is a list of edits; the sequence executed is  call, edit, call, edit, call ...,
+# every edit applied IN PLACE to the arrays returned by the call before it.
+
+EDITS = {
+    # vertices (float, shape (n, 2))
+    'v+=': lambda v, t, f, a: v.__iadd__(np.array([a, -a - 1], dtype=v.dtype)),
+    'v*=': lambda v, t, f, a: v.__imul__(-2 if a % 2 else 3),
+    'v%=': lambda v, t, f, a: v[:, 0].__imod__(1 + a % 3),        # "wrap the longitudes"
+    'v.swap': lambda v, t, f, a: v.__setitem__(slice(None), v[:, ::-1].copy()),
+    'v.sort': lambda v, t, f, a: v.sort(axis=0),
+    'v.fill': lambda v, t, f, a: v.fill(a),
+    'v.roll': lambda v, t, f, a: v.__setitem__(slice(None), np.roll(v, 1 + a % 2, axis=0)),
+    # triangles (integer, shape (m, 3))
+    't+=': lambda v, t, f, a: t.__iadd__(1 + a % 2),
+    't.roll': lambda v, t, f, a: t.__setitem__(slice(None), np.roll(t, 1 + a % 3, axis=0)),
+    't.fill': lambda v, t, f, a: t.fill(0),
+    't.cols': lambda v, t, f, a: t.__setitem__((slice(None), [1, 2]), t[:, [2, 1]]),   # winding: not part of C14
+    't.col0': lambda v, t, f, a: t.__setitem__((slice(None), 0), t[:, 1].copy()),
+    # cell indexes (integer, shape (m,))
+    'f.rev': lambda v, t, f, a: f.__setitem__(slice(None), f[::-1].copy()),
+    'f+=': lambda v, t, f, a: f.__iadd__(1 + a % 2),
+    'f.fill': lambda v, t, f, a: f.fill(0),
+    'f.roll': lambda v, t, f, a: f.__setitem__(slice(None), np.roll(f, 1 + a % 3)),
+    # nothing: a plain repeated call
+    'none': lambda v, t, f, a: None,
+}
+EDIT_NAMES = sorted(EDITS)
+
+
+def random_history(rng, max_len: int = 2) -> list:
+    n = 1 if rng.random() < 0.6 else rng.randint(1, max_len)
+    return [{'edit': rng.choice(EDIT_NAMES), 'arg': rng.randint(1, 6)} for _ in range(n)]
+
+
+def apply_edit(res, step: dict) -> str:
+    """Edit the caller's arrays in place.  -> 'changed' | 'unchanged' | 'refused:<why>'
+    (an implementation may hand out read-only arrays; then the caller cannot edit them
+    and nothing is demanded)."""
+    fn = EDITS.get(step.get('edit'))
+    if fn is None:
+        return 'refused:unknown-edit'
+    try:
+        arrs = [a for a in res if isinstance(a, np.ndarray)]
+        if len(arrs) != 3 or arrs[0].ndim != 2 or arrs[1].ndim != 2 or arrs[2].ndim != 1:
+            return 'refused:not-three-arrays'
+        before = [a.copy() for a in arrs]
+        fn(arrs[0], arrs[1], arrs[2], int(step.get('arg', 1)))
+        same = all(np.array_equal(a, b, equal_nan=True) if a.dtype.kind == 'f' else np.array_equal(a, b)
+                   for a, b in zip(arrs, before))
+        return 'unchanged' if same else 'changed'
+    except Exception as e:  # noqa: read-only array, odd dtype, odd shape ...
+        return f'refused:{type(e).__name__}'
+
+
+def raw_call(ds):
+    """like call_impl, but the arrays are the very objects the implementation returned"""
+    from emsarray.operations.triangulate import triangulate_dataset
+    try:
+        out = triangulate_dataset(ds)
+        v, t, f = out
+        return (v if isinstance(v, np.ndarray) else np.asarray(v),
+                t if isinstance(t, np.ndarray) else np.asarray(t),
+                f if isinstance(f, np.ndarray) else np.asarray(f)), None
+    except ValueError as e:
+        return None, ('ERR:noear' if 'interior diagonal' in str(e) else 'ERR:ValueError')
+    except Exception as e:  # noqa
+        return None, f'ERR:{type(e).__name__}'
+
+
+def play_history(ds, cells, history: list, first=None) -> list:
+    """-> one entry per LATER call: (call number, edits so far, canonical output, oracle failures).
+    `first` = result of the first call if it was made already (its arrays are edited in place)."""
+    out = []
+    res = first
+    if res is None:
+        res, err = raw_call(ds)
+        if res is None:
+            return [(1, [], err, [('raises-on-valid-cell', None, f'triangulate_dataset raised {err}')])]
+    done = []
+    for n, step in enumerate(history, start=2):
+        done.append(f"{step.get('edit')}:{apply_edit(res, step)}")
+        res, err = raw_call(ds)
+        if res is None:
+            out.append((n, list(done), err, [('raises-on-valid-cell', None,
+                                              f'triangulate_dataset raised {err} on a dataset of simple polygons')]))
+            break
+        try:
+            canon, fails = canon_impl(res), oracle(cells, res)
+        except Exception as e:  # noqa: whatever came back is not three arrays of the documented shapes
+            canon, fails = f'ERR:malformed-result:{type(e).__name__}', [
+                ('malformed-result', None, f'result cannot be read as (vertices, triangles, cell indexes): {e}')]
+        out.append((n, list(done), canon, fails))
+    return out
+
+
+def do_history(ctx, recipe: dict, built, cells: list, first, first_canon: str, history: list, items: list) -> None:
+    """later calls on the same dataset object, after the caller edited its earlier results in place"""
+    line = 'tri ' + cells_line(cells)
+    desc = {'recipe': recipe, 'op': 'tri', 'history': history}
+    for n, done, canon, fails in play_history(built.ds, cells, history, first=first):
+        ctx.evaluated()
+        ctx.count(f'history:call-{min(n, 3)}{"+" if n > 3 else ""}')
+        ctx.count(f'history:{done[-1]}')
+        if canon != first_canon:
+            # the model is a function of the cells alone: it answers every call alike
+            items.append((line, canon, dict(desc, history=history[:n - 1])))
+        for sig, k, msg in fails:
+            d = dict(desc, history=history[:n - 1])
+            msg = f'call {n} on one dataset object, after the caller edited its earlier results in place ({", ".join(done)}): {msg}'
+            shrunk = getattr(ctx, '_c14_hshrunk', 0)
+            if shrunk < 12 and k is not None and cells[k] is not None and sum(1 for p in cells if p is not None) > 1:
+                ctx._c14_hshrunk = shrunk + 1
+                r1 = single_recipe(cells[k])
+                b1 = G.build(r1)
+                G.bind(b1)
+                cells1 = truth_cells(b1)
+                for n1, done1, _c, fails1 in play_history(b1.ds, cells1, history[:n - 1]):
+                    again = [m for s, _, m in fails1 if s == sig]
+                    if again:
+                        d = {'recipe': r1, 'op': 'tri', 'history': history[:n1 - 1]}
+                        msg = (f'call {n1} on one dataset object, after the caller edited its earlier results in place '
+                               f'({", ".join(done1)}): {again[0]}')
+                        break
+            ctx.oracle_fail(f'repeat-call:{sig}', d, msg)
+        if fails:
+            break       # later calls of a history that already failed say nothing new
+
+
+# ---------------------------------------------------------------------------
 # one dataset
 
 def truth_matches(c, cells) -> bool:
@@ -256,7 +396,8 @@ def has_repeat(p) -> bool:
     return len(set(p)) != len(p)
 
 
-def do_dataset(ctx, recipe: dict, items: list, label: str, labels: list | None = None) -> None:
+def do_dataset(ctx, recipe: dict, items: list, label: str, labels: list | None = None,
+               history: list | None = None) -> None:
     built = G.build(recipe)
     cells = truth_cells(built)
     try:
@@ -271,7 +412,8 @@ def do_dataset(ctx, recipe: dict, items: list, label: str, labels: list | None =
     res, err = call_impl(built.ds)
     line = 'tri ' + cells_line(cells)
     desc = {'recipe': recipe, 'op': 'tri'}
-    items.append((line, err if res is None else canon_impl(res), desc))
+    first_canon = err if res is None else canon_impl(res)
+    items.append((line, first_canon, desc))
     # a ring with a repeated vertex is a valid shapely polygon but not a cell the property speaks about
     in_scope = not any(p is not None and has_repeat(p) for p in cells)
     for k, p in enumerate(cells):
@@ -332,8 +474,8 @@ def do_dataset(ctx, recipe: dict, items: list, label: str, labels: list | None =
         for tri, face in zip(res[1], res[2]):
             per[int(face)].append([V[int(i)] for i in tri])
     except Exception:
-        return
-    for k, p in enumerate(cells):
+        per = None
+    for k, p in enumerate(cells) if per is not None else []:
         if p is None:
             continue
         ts = '+'.join(ring_line(tr) for tr in per.get(k, [])) or '-'
@@ -348,6 +490,10 @@ def do_dataset(ctx, recipe: dict, items: list, label: str, labels: list | None =
             # the hypotheses of fan_oriented / fan_no_overlap / fan_inside hold wherever the fan path is taken
             items.append((f'fansorted {ring_line(p)}', '1', dict(d, op='fansorted')))
             items.append((f'convexcell {ring_line(p)}', '1', dict(d, op='convexcell')))
+    # LAST (it edits `res` in place): the same dataset object is triangulated again
+    if history:
+        ctx.guarded(lambda: do_history(ctx, recipe, built, cells, res, first_canon, history, items),
+                    {'recipe': recipe, 'op': 'tri', 'history': history})
 
 
 # ---------------------------------------------------------------------------
@@ -356,12 +502,17 @@ def run(ctx) -> None:
     rng = ctx.rng
     items: list = []
 
+    def one(recipe, items, label, labels=None, history=None):
+        # whatever the implementation returns or raises, the run goes on (a crash would be "no verdict")
+        ctx.guarded(lambda: do_dataset(ctx, recipe, items, label, labels, history), {'recipe': recipe, 'op': 'tri'})
+
     # (a) datasets of every convention, holes included
     n_conv = ctx.budget(60, 400)
     for d in range(n_conv):
         conv = G.CONVS[d % len(G.CONVS)]
         recipe = G.random_recipe(rng, conv, ctx.tier)
-        do_dataset(ctx, recipe, items, f'conv:{conv}')
+        # (e) two of three are triangulated again after the caller edited its result in place
+        one(recipe, items, f'conv:{conv}', history=random_history(rng, 3) if d % 3 else None)
 
     # (a') neighbouring cells that spell a shared zero bound differently (-0.0 / 0.0): still one vertex
     for _ in range(ctx.budget(6, 30)):
@@ -371,7 +522,7 @@ def run(ctx) -> None:
             return vals[::-1] if rng.random() < 0.4 else vals
         recipe = {'conv': 'cf1d', 'lat': axis(), 'lon': axis(), 'bounds': 'contig', 'neg_zero': True,
                   'ydim': 'lat', 'xdim': 'lon', 'latname': 'lat', 'lonname': 'lon'}
-        do_dataset(ctx, recipe, items, 'conv:cf1d:neg-zero')
+        one(recipe, items, 'conv:cf1d:neg-zero')
 
     # (b) every rotation and both windings of every template with <= 8 sides (thorough: all)
     polys, labels = [], []
@@ -414,7 +565,13 @@ def run(ctx) -> None:
     for s in range(0, len(order), chunk):
         part = order[s:s + chunk]
         recipe = T.pack([polys[k] for k in part], rng)
-        do_dataset(ctx, recipe, items, 'packed', [labels[k] for k in part])
+        one(recipe, items, 'packed', [labels[k] for k in part],
+                   history=random_history(rng) if (s // chunk) % 4 == 0 else None)
+
+    # (e) longer call histories on small meshes (1..6 targeted polygons)
+    for _ in range(ctx.budget(15, 200)):
+        ps = [T.random_valid(rng, 8)[0] for _ in range(rng.randint(1, 6))]
+        one(T.pack(ps, rng), items, 'history', history=random_history(rng, 4))
 
     # (d) rings with a repeated vertex: valid for shapely, outside the property; one per dataset
     # because an error aborts the whole call. Model and code are still compared.
@@ -422,7 +579,7 @@ def run(ctx) -> None:
         p, kind = T.random_valid(rng, 7)
         k = rng.randrange(len(p))
         p = p[:k + 1] + [p[k]] + p[k + 1:]
-        do_dataset(ctx, T.pack([p], enc={'start_index': 0, 'fill': 'nan'}), items, 'repeated-vertex')
+        one(T.pack([p], enc={'start_index': 0, 'fill': 'nan'}), items, 'repeated-vertex')
 
     if ctx.searching and ctx.driver is None:
         ctx.evaluated(len(items))
@@ -442,6 +599,16 @@ def run_one(ctx, inp: dict) -> dict:
     short = lambda t: t if len(t) <= 900 else t[:900] + ' …'   # noqa: E731
     out = {'cells': short(cells_line(cells))}
     impl = err if res is None else canon_impl(res)
+    if inp.get('history') and res is not None:
+        # call, edit the caller's arrays in place, call again ... on this one dataset object
+        out['call 1'] = short(impl)
+        out['oracle, call 1'] = [f'{s}: {m}' for s, _, m in oracle(cells, res)][:6] or 'no clause of C14 fails'
+        for n, done, canon, fails in play_history(built.ds, cells, inp['history'], first=res):
+            out[f'caller edit before call {n}'] = done[-1]
+            out[f'call {n}'] = short(canon)
+            out[f'oracle, call {n}'] = [f'{s}: {m}' for s, _, m in fails][:6] or 'no clause of C14 fails'
+            impl = canon
+        res = None      # edited in place: the last call is what is compared below
     out['impl'] = short(impl)
     if ctx.driver:
         model = ctx.model(['tri ' + cells_line(cells)])[0]
